@@ -81,6 +81,11 @@ pub struct Workload {
     /// in the main body
     #[serde(default)]
     pub nested_mod: Vec<usize>,
+    /// other places an include can hide: (kind, include index); kind 1 = inside the helper
+    /// of a nested mod, inside a second nested mod; 2 = inside an old-style defmacro body;
+    /// 3 = inside a nested mod in a helper that nothing calls
+    #[serde(default)]
+    pub hidden: Vec<(u8, usize)>,
 }
 
 fn dir_path(d: u8) -> String {
@@ -137,6 +142,32 @@ pub fn render_main(w: &Workload) -> String {
     for i in w.nested_mod.iter() {
         if let Some(inc) = w.incs.get(*i) {
             uses.push(format!("(mod (Z) (include {}) (c Z K{}))", inc.name, i));
+        }
+    }
+    for (kind, i) in w.hidden.iter() {
+        if let Some(inc) = w.incs.get(*i) {
+            match kind {
+                1 => uses.push(format!(
+                    "(mod (Z) (defun deep{i} (W) (a (mod (V) (include {n}) (c V K{i})) (c W ()))) (deep{i} Z))",
+                    i = i,
+                    n = inc.name
+                )),
+                2 => {
+                    s.push_str(&format!(
+                        "  (defmacro addk{i} (A) (include {n}) (list \"+\" A K{i}))\n",
+                        i = i,
+                        n = inc.name
+                    ));
+                    uses.push(format!("(addk{} X)", i));
+                }
+                _ => {
+                    s.push_str(&format!(
+                        "  (defun unused{i} (Q) (mod (V) (include {n}) (c V K{i})))\n",
+                        i = i,
+                        n = inc.name
+                    ));
+                }
+            }
         }
     }
     let mut body = String::from("()");
@@ -349,6 +380,16 @@ pub fn generate(rng: &mut Rng, thorough: bool) -> Workload {
     } else if ninc > 0 && rng.chance(1, 8) {
         nested_mod.push(rng.below(ninc as u64) as usize);
     }
+    let mut hidden = Vec::new();
+    if rng.chance(1, 4) {
+        let kind = rng.range(1, 3) as u8;
+        incs.push(Inc {
+            name: ["hid.clinc", "sub/hid.clinc", "k.clib"][rng.below(3) as usize].to_string(),
+            copies: gen_copies(rng, ndirs, false),
+            refs: vec![],
+        });
+        hidden.push((kind, incs.len() - 1));
+    }
     Workload {
         sigil: rng.below(SIGILS.len() as u64) as u8,
         ndirs,
@@ -359,6 +400,7 @@ pub fn generate(rng: &mut Rng, thorough: bool) -> Workload {
         entry: rng.below(4) as u8,
         transient_pm: if rng.chance(1, 10) { 150 } else { 0 },
         nested_mod,
+        hidden,
     }
 }
 
@@ -612,6 +654,7 @@ impl Policy for C18Policy {
                 .w
                 .nested_mod
                 .iter()
+                .chain(self.w.hidden.iter().map(|(_, i)| i))
                 .filter_map(|i| self.w.incs.get(*i).map(|x| x.name.as_str()))
                 .collect();
             self.reads.iter().any(|p| {
@@ -779,6 +822,12 @@ fn drop_inc(w: &Workload, i: usize) -> Workload {
             *j -= 1;
         }
     }
+    c.hidden.retain(|(_, j)| *j != i);
+    for (_, j) in c.hidden.iter_mut() {
+        if *j > i {
+            *j -= 1;
+        }
+    }
     c
 }
 
@@ -886,6 +935,11 @@ impl Prop for C18 {
             c.nested_mod.remove(k);
             out.push(c);
         }
+        for k in 0..w.hidden.len() {
+            let mut c = w.clone();
+            c.hidden.remove(k);
+            out.push(c);
+        }
         if w.entry != 0 {
             let mut c = w.clone();
             c.entry = 0;
@@ -902,9 +956,9 @@ impl Prop for C18 {
     }
     fn runs_for_tier(thorough: bool) -> u64 {
         if thorough {
-            250_000
+            200_000
         } else {
-            14_000
+            10_000
         }
     }
     fn determinism_runs() -> u64 {
